@@ -104,7 +104,7 @@ template <class PT> void run_cloud(vf::Ctx& c, const char* tname, const Cloud& c
     Eigen::SelfAdjointEigenSolver<LMt> es(cov);
     LD l0 = es.eigenvalues()(0), l1 = es.eigenvalues()(1), lmax = es.eigenvalues()(DIM - 1);
     LD gap = (l1 - l0) / lmax, spread = sqrtl(lmax);
-    LD bound = 16 * eps * (1 + rad / spread) / std::max<LD>(gap, 1e-30L);   // two-pass covariance: centring error eps R relative to the spread s
+    LD bound = 6 * eps * (1 + rad / spread) / std::max<LD>(gap, 1e-30L);   // two-pass covariance: centring error eps R relative to the spread s
     LD curv = DIM > 0 ? (LD)c3[i] : 0;
     LD ctol = 64 * eps * (1 + rad / spread);
     if (!(curv >= -ctol && curv <= (LD)1 / DIM + ctol)) c.violation("NormalAndCurvatureEstimation.curvature.range", params(), vf::JO().num("curvature", curv).done());
@@ -168,7 +168,7 @@ std::string vf_describe(const std::string& tier) {
   o.str("rotations", "identity, Rz(0.3), Rx(1.1)Ry(-0.7) (2D: R(-2.0)), Rz(pi)");
   o.str("output_normals", "zero-initialised and default-constructed (homogeneous coordinate 1; Cartesian: constant 0.5)");
   o.str("overloads", "all six compute overloads, compared bitwise");
-  o.str("oracle", "unit Cartesian length; n.p<=0; direction vs long-double PCA of the library's own k-NN answer with bound 16 eps (1+R/s)/gap (cases with gap<=1e-6, bound>0.05 or a k/(k+1) distance tie are skipped); planar clouds: surface normal and zero curvature; curvature in [0,1/DIM]; R n(p) = n'(R p)");
+  o.str("oracle", "unit Cartesian length; n.p<=0; direction vs long-double PCA of the library's own k-NN answer with bound 6 eps (1+R/s)/gap (cases with gap<=1e-6, bound>0.05 or a k/(k+1) distance tie are skipped); planar clouds: surface normal and zero curvature; curvature in [0,1/DIM]; R n(p) = n'(R p)");
   return o.done();
 }
 
